@@ -63,6 +63,7 @@ def run(ck):
     ck.rule("C19.R2", "comparison body == op(enc(other), enc(self)) for its own operator", floor=24)
     ck.rule("C19.R3", "Display/as_str and FromStr tables inverse; nothing else accepted", floor=30)
     ck.rule("C19.R5", "a LevelFilter used as a layer / per-layer filter enables `level <= self` and publishes itself as the max-level hint, OFF included (as C08.R4)", floor=4)
+    ck.rule("C19.R6", "the digits mean one thing: #[instrument(level = <digit>)] produces the level that digit parses to", floor=1)
     ck.rule("C19.R4", "set_max/current inverse; enable tests are level <= filter", floor=20)
     for cfg in configs:
         F = Facts(cfg)
@@ -76,6 +77,7 @@ def run(ck):
         if cfg == "default":
             from rules import C08
             C08.levelfilter_rule(ck, F, rid="C19.R5")
+            r6_attribute_digits(ck)
 
 
 # ------------------------------------------------------------------ R1
@@ -434,6 +436,8 @@ def r3_text(ck, F, tag, enc):
         top, got_digits, got_names, other_accept = extract(ty) if ty == LV else filter_tables
         if not ck.anchor("C19.R3", "FromStr for " + short, top):
             continue
+        if ty == LV and not tag:
+            ck._c19_level_digits = lambda: dict(got_digits)
         delegated = False
         if ty == LV and not got_digits and not got_names:
             # accepted idiom: Level::from_str delegating to LevelFilter::from_str and keeping the Some(level) results
@@ -631,3 +635,34 @@ def r4_published(ck, F, tag, enc, census):
     for s in ENABLE_TEST_SITES:
         if s not in seen_sites:
             ck.anchor(RID["R4"], s, None)
+
+
+def r6_attribute_digits(ck):
+    """The attribute macro is the third reader of a level's numeric spelling (after Level::from_str and
+    LevelFilter::from_str / directives). Its table is not visible as MIR (proc macro), its output is: the level in the
+    CTFE-decoded metadata of the span callsite `#[instrument(level = d)] fn digit<d>` expands to, for d = 1..5."""
+    from rules import C17
+    FX = Facts("fx_instrument")
+    ck.configs.append("fx_instrument")
+    core = getattr(ck, "_c19_level_digits", lambda: {})()
+    key = "#[instrument(level = <digit>)] follows the digit scale of Level::from_str"
+    got = {}
+    for d in range(1, 6):
+        b = FX.body("fx_instrument::digit%d" % d)
+        if not ck.anchor("C19.R6", "fixture digit%d" % d, b):
+            return
+        cs = C17.callsites_in(FX, [b] + FX.closures_of(b))
+        spans = [C17.meta_summary(m) for m in cs.values() if m is not None]
+        spans = [m for m in spans if m["span"]]
+        if len(spans) != 1:
+            ck.bad("C19.R6", key, where(b.raw["sp"]), "fixture digit%d expands to %d span callsites" % (d, len(spans)))
+            return
+        got[d] = spans[0]["level"]
+    if len(core) < 5:
+        ck.bad("C19.R6", key, "tracing-core/src/metadata.rs", "no digit table could be extracted from Level::from_str (%s)" % core)
+        return
+    diff = ["%d -> %s (Level::from_str: %s)" % (d, got[d], core.get(d)) for d in sorted(got) if got[d] != core.get(d)]
+    if diff:
+        ck.bad("C19.R6", key, "tracing-attributes/src/attr.rs (impl Parse for Level)", "the attribute reads the digits on the inverse scale: " + ", ".join(diff))
+    else:
+        ck.ok("C19.R6", key, detail=got)
